@@ -21,6 +21,7 @@ def run(chk):
     cerlib.run_config(chk, "C05mem", PREFIXES)
     cerlib.run_config(chk, "C05slot", PREFIXES)
     storecontract.run(chk)
+    cerlib.random_histories(chk, PREFIXES, quick_n=0)
     cerlib.finish_cov(chk, "one behaviour per (store content over 2 RPs x 3 credentials, request RP, allow/exclude list, list given or not, store kind); "
                            "non-trivial = reaches a prompt or store call",
                       False, "bounded store contents and lists, exhaustive within the bound")
